@@ -360,6 +360,10 @@ fn get_dir_name() -> String {
 
 #[cfg(not(test))]
 fn get_dir_name() -> String {
+    #[cfg(nundb_verif)]
+    if let Some(dir) = crate::verif_hooks::data_dir() {
+        return dir;
+    }
     use crate::configuration::NUN_DBS_DIR;
     NUN_DBS_DIR.to_string()
 }
